@@ -75,7 +75,7 @@ MinOf(S) == CHOOSE x \in S : \A y \in S : x <= y
 GInit == Init /\ hist = <<[op |-> "cfg", t0 |-> now] @@ cfg>>
 
 GBegin == /\ nres < MaxRes /\ (nres > 0 => LastOp = "adv")
-          /\ \E r \in Requests : Begin(r.qname, r.search, r.life, r.qtype, r.qclass) /\ H([op |-> "begin"] @@ r)
+          /\ \E r \in Requests : Begin(r.qname, r.search, r.life, r.qtype, r.qclass) /\ H([op |-> "begin", api |-> "resolve"] @@ r)
 GAdvance == /\ nres > 0 /\ nres < MaxRes /\ LastOp # "adv"
             /\ \E d \in IdleAdvances : Advance(d) /\ H([op |-> "adv", d |-> d])
 GQuery == /\ nq < MaxQ
@@ -84,6 +84,21 @@ GQuery == /\ nq < MaxQ
 GInternal == /\ \/ NextRequest \/ RetryTcp \/ GiveUp \/ Rearm \/ Sleep(BackoffTable[backoffIdx])
                 \/ (cur # {} /\ Pick(MinOf(cur))) \/ Expire \/ (now - start >= -TicksPerSec /\ Budget) \/ Finish
              /\ UNCHANGED hist
+
+(* ---- resolve_name(name, family=AF_UNSPEC): AAAA lookup, then A lookup for the name the first settled on;
+   each sub-lookup gets min(remaining lifetime, timeout) as its lifetime (that is what the method computes) *)
+GCfgName == {Cfg(1, FALSE, FALSE, FALSE, c, 32, 8, sl, Dom, -1, usd) : c \in {"none", "simple"}, sl \in {<<S1>>, <<S1, S2>>}, usd \in BOOLEAN}
+GCfgNameQ == {Cfg(1, FALSE, FALSE, FALSE, "simple", 32, 8, sl, Dom, -1, TRUE) : sl \in {<<S1>>, <<S1, S2>>}}
+GReqNameQ == {Req(<<"www">>, "none", 0, "AAAA", "IN")}
+GReqName == {Req(<<"www">>, sf, 0, "AAAA", "IN") : sf \in {"true", "none"}}
+GOutName(q, qt) == {Exc("Timeout"), Msg("SERVFAIL", <<>>, <<>>)} \cup PosSmall(q, qt) \cup NoDataSmall(q, qt) \cup NxSmall(q, qt)
+FollowDue == nres = 1 /\ phase = "rest" /\ result[1] = "answer" /\ now - start < cfg.life
+GBeginName == /\ nres = 0
+              /\ \E r \in Requests : Begin(r.qname, r.search, Min(cfg.life, cfg.tmo), "AAAA", r.qclass)
+                                       /\ H([op |-> "begin", api |-> "name"] @@ r)
+GFollow == FollowDue /\ BeginFollowUp(Min(cfg.life - (now - start), cfg.tmo)) /\ UNCHANGED hist
+GNextName == GBeginName \/ GFollow \/ GQuery \/ GInternal
+EmitName == (phase = "rest" /\ (nres = 2 \/ (nres = 1 /\ ~FollowDue))) => PrintT("BEH " \o ToJson(hist))
 
 GNext == GBegin \/ GAdvance \/ GQuery \/ GInternal
 
@@ -96,7 +111,7 @@ GQuerySim == /\ nq < MaxQ
                       Query(o, d) /\ H([op |-> "out", out |-> o, adv |-> d])
 GBeginSim == /\ nres < MaxRes /\ (nres > 0 => LastOp = "adv")
              /\ \E r \in {RandomElement(Requests)} :
-                   Begin(r.qname, r.search, r.life, r.qtype, r.qclass) /\ H([op |-> "begin"] @@ r)
+                   Begin(r.qname, r.search, r.life, r.qtype, r.qclass) /\ H([op |-> "begin", api |-> "resolve"] @@ r)
 GInitSim == /\ cfg = RandomElement(Configs) /\ now \in StartTimes /\ InitRest
             /\ hist = <<[op |-> "cfg", t0 |-> now] @@ cfg>>
 GNextSim == GBeginSim \/ GAdvance \/ GQuerySim \/ GInternal
